@@ -41,6 +41,8 @@ def gen(rng, tier):
         size = rng.choice([0, 1, limit - 1, limit, limit + 1, limit + 5, 100])
         size = max(0, min(size, 70000))
         root = rng.choice(["", "", "/app", "/app/v1", "/é".encode().decode("utf-8")])
+        # the same prefix written with a trailing slash (or a bare "/") is normalised by the configuration: same split
+        root_cfg = root + "/" if rng.random() < 0.25 else root
         req = G.gen_request(rng, i, version, tier, body_sizes=[size], methods=["POST" if size else "GET", "PUT" if size else "DELETE"])
         tail = rng.choice(["", "/x", "/caf%C3%A9", "/a%20b", "/%E2%82%AC/z", "/p;q=1"])
         base_path = (root.encode("utf-8").decode("latin-1").encode("latin-1") if False else b"")
@@ -72,7 +74,7 @@ def gen(rng, tier):
         be = ["asyncio", "trio"]
         via = rng.choice(["wrapper", "wrapper", "middleware"])
         spec = {"shape": shape, "status": status, "headers": rh, "chunks": chunks, "raise_at": raise_at, "max_body": limit, "via": via}
-        config = {"keep_alive_timeout": 5000, "root_path": root, "wsgi_max_body_size": limit}
+        config = {"keep_alive_timeout": 5000, "root_path": root_cfg, "wsgi_max_body_size": limit}
         truth = {"kind": "http", "req": req, "shape": shape, "status": status, "headers": rh, "chunks": chunks, "raise_at": raise_at,
                  "limit": limit, "root": root, "version": version}
         if version == "2":
